@@ -10,11 +10,19 @@ EXTENDS JoseDefs, TLC, Json
 Ktys == {"oct", "RSA", "EC", "OKP"}
 ValueMembers(kty) == JwkRequired(kty) \cup (JwkPrivate(kty) \ {"oth"})
 ParamMembers == {"use", "key_ops", "alg", "kid", "x5c", "x5u"}
-Mutations == {"delete", "int", "null", "list", "obj", "bool", "bad_b64", "empty", "flip", "contradict", "unknown_value"}
+Mutations == {"delete", "int", "null", "list", "obj", "bool", "bad_b64", "empty", "flip", "contradict", "unknown_value",
+              "other_key", "negate"}   \* the member (EC: the point) of another well-formed key of the type; EC y -> p - y
 
 \* the verdict the statement fixes: "refuse", "accept", or "either" (outside the statement)
+\* public and private halves that are each well formed but do not belong together: such a key cannot "interoperate with
+\* the original", and no independent implementation reconstructs a key from it
+Contradictory(kty, private, m, mut) ==
+  /\ private /\ kty # "oct" /\ m \in (JwkRequired(kty) \cup JwkPrivate(kty)) \ {"crv", "oth"}
+  /\ mut = "other_key" \/ (mut = "negate" /\ kty = "EC" /\ m = "y")
+
 Verdict(kty, private, m, mut) ==
-  IF m \in JwkRequired(kty) THEN
+  IF mut \in {"other_key", "negate"} THEN (IF Contradictory(kty, private, m, mut) THEN "refuse" ELSE "either")
+  ELSE IF m \in JwkRequired(kty) THEN
        (IF mut \in {"delete", "int", "null", "list", "obj", "bool", "bad_b64"} THEN "refuse"
         ELSE IF m = "crv" /\ mut \in {"flip", "unknown_value", "empty"} THEN "refuse"
         ELSE IF kty = "EC" /\ m \in {"x", "y"} /\ mut \in {"flip", "empty"} THEN "refuse"           \* point not on the curve
